@@ -13,6 +13,7 @@ import RichchkModel.Lemmas.PassThrough
 import RichchkModel.Lemmas.CodecLemmas
 import RichchkModel.Lemmas.RichRoundTrip
 import RichchkModel.Lemmas.RebuildLemmas
+import RichchkModel.Lemmas.OrderFree
 namespace Richchk.Props.C02
 open Richchk
 
@@ -224,5 +225,85 @@ theorem c02_location_reference_keeps_slot {cfg : RichCfg} {secs : List RSection}
   have : ctx.locs.any (fun t => RLoc.same t l) = true :=
     List.any_eq_true.mpr ⟨l, hin, RLoc.same_refl_indexed l (by simp [hv])⟩
   simp [this]
+
+/-! ### switch names through an unedited save -/
+
+/-- invariant of the placement loop for a slot `i` nobody names: as long as every switch of the batch that sits on
+`i` is unnamed and every switch of the batch carries a number, slot `i` never receives a name -/
+theorem rebuildSwnm_go_unnamed_stays (i : Nat) :
+    ∀ (ss : List RSwitch) (free : List Nat) (tbl : List RSwitch) (ids : List (RSwitch × Nat))
+      (out : List RSwitch) (oids : List (RSwitch × Nat)),
+      (∀ s ∈ ss, s.idx ≠ none) →
+      (∀ s ∈ ss, s.idx = some i → hasCustomName s = false) →
+      (∀ cur, tbl[i]? = some cur → hasCustomName cur = false) →
+      rebuildSwnm.go ss free tbl ids = .ok (out, oids) →
+      ∀ cur, out[i]? = some cur → hasCustomName cur = false := by
+  intro ss
+  induction ss with
+  | nil =>
+    intro free tbl ids out oids _ _ hP h
+    simp only [rebuildSwnm.go, Except.ok.injEq, Prod.mk.injEq] at h
+    rw [← h.1]; exact hP
+  | cons s rest ih =>
+    intro free tbl ids out oids hidx hun hP h
+    have hidx' : ∀ t ∈ rest, t.idx ≠ none := fun t ht => hidx t (List.mem_cons_of_mem _ ht)
+    have hun' : ∀ t ∈ rest, t.idx = some i → hasCustomName t = false := fun t ht => hun t (List.mem_cons_of_mem _ ht)
+    simp only [rebuildSwnm.go] at h
+    cases hj : s.idx with
+    | none => exact absurd hj (hidx s (by simp))
+    | some j =>
+      simp only [hj] at h
+      cases hcur : tbl[j]? with
+      | none => simp [hcur] at h
+      | some cur =>
+        simp only [hcur] at h
+        split at h
+        · refine ih free _ _ out oids hidx' hun' ?_ h
+          intro c hc
+          by_cases hji : j = i
+          · subst hji
+            have hjlt : j < tbl.length := (List.getElem?_eq_some_iff.mp hcur).1
+            rw [List.getElem?_set_self hjlt] at hc
+            cases hc
+            exact hun s (by simp) hj
+          · rw [List.getElem?_set_ne hji] at hc
+            exact hP c hc
+        · exact ih free _ _ out oids hidx' hun' hP h
+
+/-- **C02 for switch names, the unnamed half**: in a save in which every switch the triggers use carries its number
+(an unedited load/save: the decoder hands out the table's own entries, or number-only switches), a switch number
+`i` that the stored table leaves unnamed and that no trigger names is still unnamed in the rebuilt table — for every
+map and every iteration order.  With `c07_named_switch_keeps_name` (a named switch keeps exactly its entry) this is
+value preservation of the whole switch-name table through an unedited save. -/
+theorem c02_unnamed_switch_stays_unnamed {cfg : RichCfg} {secs : List RSection} {order : Option (List Nat)}
+    {tbl : List RSwitch} {ids : List (RSwitch × Nat)}
+    (h : rebuildSwnm cfg secs order = .ok (tbl, ids))
+    (ss : List RSwitch) (hs : secs.filter (isSectionNamed nSWNM) = [.swnm ss])
+    (hstored : ∀ u ∈ ss, u.idx ≠ none)
+    (i : Nat)
+    (hfree : ∀ u ∈ ss, u.idx = some i → hasCustomName u = false)
+    (hused : ∀ u ∈ (secs.filter (fun s => !isSectionNamed nSWNM s)).flatMap (sectionSwitches cfg),
+      u.idx ≠ none ∧ (u.idx = some i → hasCustomName u = false)) :
+    ∀ cur, tbl[i]? = some cur → hasCustomName cur = false := by
+  unfold rebuildSwnm at h
+  simp only [hs] at h
+  split at h
+  · simp at h
+  · have hall : ∀ u ∈ ss.filter hasCustomName ++
+        (allocOrder order (dedupBy RSwitch.same ((secs.filter (fun s => !isSectionNamed nSWNM s)).flatMap (sectionSwitches cfg)))).filter
+          (fun u => !((ss.filter hasCustomName).any fun n => RSwitch.same n u)),
+        u.idx ≠ none ∧ (u.idx = some i → hasCustomName u = false) := by
+      intro u hu
+      rcases List.mem_append.mp hu with hu | hu
+      · have hm := (List.mem_filter.mp hu).1
+        exact ⟨hstored u hm, hfree u hm⟩
+      · have hu1 := (List.mem_filter.mp hu).1
+        exact hused u (dedupBy_subset RSwitch.same _ u (allocOrder_subset order _ u hu1))
+    refine rebuildSwnm_go_unnamed_stays i _ _ _ [] tbl ids (fun u hu => (hall u hu).1) (fun u hu => (hall u hu).2) ?_ h
+    intro cur hc
+    by_cases hi : i < cfg.switchSlots
+    · simp [hi] at hc
+      rw [← hc]; rfl
+    · simp [hi] at hc
 
 end Richchk.Props.C02
